@@ -1,9 +1,48 @@
 EXPECTED_FACTS = {
+    "c06_attempt_loop": [
+        "sendPsync: if err != nil",
+        "sendPsync: if wait == nil",
+        "sendPsync: for rdbSize == 0",
+        "sendPsync: if x.Err != nil",
+        "sendPsync: if x.Size <= 0",
+        "getOutputStartPoint: RetryLinearJitter(ctx, func, 3, time.Second * 2, 0.5)",
+        "getOutputStartPoint: Join(ErrBreak, err)",
+        "Run: for !ri.wait.IsClosed()",
+        "Run: if err != nil",
+        "Run: if errors.Is(err, ErrCorrupted)",
+        "Run: ri.channel.DelRunId(ri.channel.RunId())",
+        "Run: if errors.Is(err, ErrBreak)",
+        "Run: ri.wait.Close(err)",
+        "Run: break",
+        "Run: if backoff := ri.runLoopBackoff(err); backoff > 0",
+        "Run: ri.wait.Sleep(backoff)",
+        "Run: ri.wait.Close(fmt.Errorf(\"panic : %v\", i))",
+        "runLoopBackoff: return 0",
+        "runLoopBackoff: return 2 * time.Second"
+    ],
+    "c06_delcheckpoint_order": [
+        "DelCheckpoint: return DelCheckpoints(cli, checkpointName, []string{runId})",
+        "if err != nil { return err }",
+        "range mp",
+        "range runIds",
+        "fetchCheckpoint([]string{runId}, cli, int(db), checkpointName)",
+        "if err != nil { return err }",
+        "sort.SliceStable(records)",
+        "less: if records[i].offset != records[j].offset { return records[i].offset < records[j].offset }",
+        "less: if records[i].mtime != records[j].mtime { return records[i].mtime < records[j].mtime }",
+        "less: return records[i].db < records[j].db",
+        "range records",
+        "if err != nil { return err }",
+        "if err != nil { return err }",
+        "ResetStartPoint: checkpoint.DelCheckpoints(cli, ro.cfg.CheckpointName, ids)"
+    ],
+    "c06_capabilities": [
+        "client.NewCommand(\"replconf\", \"capa\", \"psync2\")"
+    ],
     "c06_channel_calls": [
         "syncMeta: ri.channel.StartPoint(inputIds)",
         "syncMeta: ri.channel.IsValidOffset(Offset{RunId: locSp.RunId, Offset: outSp.Offset})",
         "syncMeta: ri.channel.GetRdb(locSp.RunId)",
-        "syncMeta: ri.channel.GetOffsetRange(locSp.RunId)",
         "syncMeta: ri.channel.DelRunId(ri.channel.RunId())",
         "syncMeta: ri.channel.RunId()",
         "syncMeta: ri.channel.SetRunId(sOffset.RunId)",
@@ -40,6 +79,8 @@ EXPECTED_FACTS = {
         "fetchInput: !ri.rdbLimiterAcquire(wait.Done())",
         "syncData: isFullSync",
         "syncData: wait.IsClosed()",
+        "syncData: rdbWriter != nil",
+        "syncData: aofWriter != nil",
         "syncData: isFullSync",
         "syncData: aofWriter == nil",
         "readChannel: wait.IsClosed()",
@@ -88,7 +129,7 @@ EXPECTED_FACTS = {
 }
 
 PROP = {
-    "lean_modules": ["GunYu.Props.C06", "GunYu.Props.C06Loop"],
+    "lean_modules": ["GunYu.Props.C06", "GunYu.Props.C06Loop", "GunYu.Props.C06Att", "GunYu.Props.C06Send", "GunYu.Props.C06Bisync"],
     "audit_namespaces": ["GunYu.Props.C06"],
     "required_theorems": [
         "GunYu.Props.C06.outcome_continue_or_full",
@@ -131,11 +172,45 @@ PROP = {
         "GunYu.Props.C06.loop_safe_stale",
         "GunYu.Props.C06.loop_example",
         "GunYu.Props.C06.loop_example_stale",
+        # attempts call by call, unusual replies, int64, the Run loop, deletion order: Props/C06Att.lean
+        "GunYu.Props.C06.sendPSync64_eq",
+        "GunYu.Props.C06.attemptP_stop_iff",
+        "GunYu.Props.C06.attemptP_unchanged",
+        "GunYu.Props.C06.bad_header_records_nothing",
+        "GunYu.Props.C06.attemptP_ok",
+        "GunYu.Props.C06.attemptP_inv",
+        "GunYu.Props.C06.failing_call_inv",
+        "GunYu.Props.C06.truth_unchanged_before_send",
+        "GunYu.Props.C06.failed_call_delivers_nothing",
+        "GunYu.Props.C06.syncMetaL_eq",
+        "GunYu.Props.C06.locErr_clears",
+        "GunYu.Props.C06.branch4_writer_offset",
+        "GunYu.Props.C06.run_sleep_unchanged",
+        "GunYu.Props.C06.run_stopped_fixed",
+        "GunYu.Props.C06.run_break_stops",
+        "GunYu.Props.C06.run_leaves_iff",
+        "GunYu.Props.C06.run_corrupted_stops",
+        "GunYu.Props.C06.run_in_loop",
+        "GunYu.Props.C06.run_safe",
+        "GunYu.Props.C06.del_prefix_safe",
+        "GunYu.Props.C06.del_order_needed",
+        # the truth after a Send derived from the sender's theorems: Props/C06Send.lean
+        "GunYu.Props.C06.send_position_is_truth",
+        "GunYu.Props.C06.stored_is_boundary",
+        "GunYu.Props.C06.attempt_delivered_stream",
+        "GunYu.Props.C06.sender_lives_beside_attempt",
+        "GunYu.Props.C06.afterSend_coupled",
+        # bisync start point (C14's model) feeding syncMeta: Props/C06Bisync.lean
+        "GunYu.Props.C06.tgtAt_truthful",
+        "GunYu.Props.C06.point_outcome",
+        "GunYu.Props.C06.bisync_outcome_continue_or_full",
+        "GunYu.Props.C06.bisync_sync_mode_outcome",
     ],
     "expected_facts": EXPECTED_FACTS,
     "harness": [{"name": "C06", "pkg": "./syncer/", "test": "TestVerifC06",
                  "timeout_quick": "10m", "timeout_thorough": "40m"},
-                {"name": "C06b", "pkg": "./syncer/", "test": "TestVerifC06Bisync"}],
+                {"name": "C06b", "pkg": "./syncer/", "test": "TestVerifC06Bisync"},
+                {"name": "C06c", "pkg": "./syncer/", "test": "TestVerifC06Att", "timeout_quick": "10m", "timeout_thorough": "40m"}],
     "driver": "drv_C06",
     "rule": "one op per (re)connection: the real RedisInput.run (fetchInput, syncMeta, pSync/SendPSync, syncData, readChannel, "
             "sendOutput) with the real StoreChannel (pkg/store, temp dir) or MemoryChannel runs against a RESP source double on "
@@ -175,11 +250,48 @@ PROP = {
             "and the property is not judged; in memory with the log starting after the snapshot (what the collector leaves) it is inside "
             "CacheWF and everything is compared and judged; every op carries wf=<SourceWF and CacheWF> computed on both sides. "
             "distinct_nontrivial = distinct (backend, stored id class, cache id class, cache shape, stored-vs-cache, backlog, branch, "
-            "full, delivered) combinations",
+            "full, delivered) combinations. "
+            "Session C06c (TestVerifC06Att): one `att` op = one real RedisInput.run() with the REAL RedisOutput bookkeeping (newOutput after a "
+            "process that stored the position, StartPoint, SetRunId, ResetStartPoint, setCheckpoint on the target double; resume and in-memory "
+            "mode) in which ONE call fails - dial/INFO, channel.DelRunId, channel.SetRunId, output.ResetStartPoint (1st/2nd call), "
+            "output.SetRunId, writer creation, reader creation (late failures wait until the writer stored everything), the snapshot "
+            "replay - or none, and in 1/3 of the ops the PSYNC is answered by the SUCCESSOR of the source that answered INFO (fail-over in "
+            "between: new id, previous id = INFO's, switch offset around the stored / cached offsets). Compared with the Lean model "
+            "(stageOf / attemptP / attempt / staleAttempt): decision, PSYNC line (int64-wrapped), reply, how far the attempt got (derived "
+            "from the calls observed), whether Run would stop (ErrBreak), the cache it leaves, the position output.StartPoint then reads "
+            "with the next source's ids. Unusual peers: `$EOF:<40 bytes>`, `$abc`, `$0`, `$-n` after +FULLRESYNC; stored offset 2^63-1; "
+            "channel.StartPoint answering with an error (locerr: decision and cache afterwards); output.StartPoint failing once / three "
+            "times and the source REFUSING the connection (newRedisConn, ErrRestart: three ops on lanes of their own, 1-2 s per try). "
+            "Three `runloop` ops = the real RedisInput.Run(): (attempt whose replay fails, "
+            "2 s back-off, attempt that completes, attempt whose output.StartPoint fails three times): attempts made, stop on ErrBreak, no "
+            "attempt afterwards, cache unchanged across the back-off; (attempt whose Send ends with ErrCorrupted): DelRunId then the loop "
+            "is left after that one attempt, cache dropped; (Send ends with ErrQuit): left at once, cache kept - ErrCorrupted / ErrRestart "
+            "/ ErrQuit wrap ErrBreak (the error is injected at Send's return, as RedisOutput.Send reports a damaged segment; the store's "
+            "own detection is C05/C08's). Four `sync` ops on the real RedisOutput in BISYNC mode (frontier "
+            "snapshot / per-slot latest record ahead of the root checkpoint; backlog holding or not holding the position): the real "
+            "bisyncStartPoint answer goes through the real syncMeta. REQUEST-LEVEL CUTS: a (re)connection after the source was replaced / "
+            "failed over with the old master ahead / fell behind the target runs un-cut on the real output (optionally a stale lower record of "
+            "the label in another database); its target request log is the crash-point space: for every request up to the hand-over to Send "
+            "(sampled afterwards; every one in the thorough tier) the target double is rebuilt from the prefix, the cache is lost, the "
+            "process restarts (real newOutput + run) and is judged by the ground truth of the target's data (one `sync` op each). Every "
+            "kind runs in every quick run (4 generated + 4 corpus schedules); the stale record sits under the SAME label or (failover) "
+            "under the OTHER label (what an interrupted relabel leaves); one schedule per quick run (half of the extra ones in the thorough "
+            "tier) uses the REAL RedisOutput.Send for the life before, the cut connection and the restarts (real RDB snapshots and command "
+            "streams replayed onto the target double): there the truth is READ from the rebuilt double's data (both keys of a snapshot, the "
+            "stream commands of its history on top; one key alone = interrupted replay, cut_points_dirty_target), in the other schedules "
+            "Send is the recording shortcut and the truth switches at the hand-over. The source double answers `$EOF:<40 bytes>` whenever "
+            "the replica advertised `capa eof` (a diskless master, the default since Redis 7); the advertised capabilities are an extracted "
+            "fact (c06_capabilities). "
+            "Monitors of C06c: attempt-never-ends, snapshot-of-invalid-size-recorded, early-failure-went-on, "
+            "delivered-after-failed-bookkeeping, failed-attempt-not-reported, break-not-reported, stream-bytes / snapshot-bytes against the "
+            "ANSWERING source's history, continue-other-history (beyond the successor's switch offset; ground truth in the cut schedules), "
+            "bisync-start-not-committed-position, loop-does-not-stop-on-break, attempt-after-break, state-changed-during-backoff, "
+            "no-backoff-after-failed-attempt",
     "trusted": [
         "Redis's PSYNC admission rule (replication.c masterTryPartialResynchronization / syncCommand) as transcribed in "
         "Model/Psync.lean `admitPsync` and, independently, in the Go source double `vf6Source.admit`; +CONTINUE/+FULLRESYNC/$len framing",
-        "source double, recording output and channel proxy in harness/overlay/syncer/vf_c06_test.go",
+        "source double, recording output and channel proxy in harness/overlay/syncer/vf_c06_test.go; fault layers (one failing call), "
+        "lanes and the request-prefix rebuild (vfdoubles.ReplayWith) in harness/overlay/syncer/vf_c06_att_test.go",
     ],
     "assumptions": [
         "CacheOK (bytes the cache holds under the source's current id are the current history's on the range it reports; under the "
@@ -207,9 +319,26 @@ PROP = {
         "(RedisOutput.StartPoint/SetRunId -> GetCheckpoint/UpdateCheckpoint re-keying is C17/C07's subject)",
         "single cache directory per input (the disk store can hold directories of several ids; only the one matching the source ids "
         "first is modelled); ids compare case-sensitively (Redis uses strcasecmp on hex ids)",
-        "syncMeta/SendPSync/channel query API are hand-written models tied by correspondence (not regenerated); the skeleton they "
-        "transcribe (syncMeta's if-conditions and pSync arguments, its channel/output calls, SendPSync's offset statements) is "
+        "syncMeta/SendPSync/channel query API and the attempt model (Model/PsyncAtt.lean: stageOf, attemptP, spTries, hdrOk, runStep) are "
+        "hand-written models tied by correspondence (not regenerated); the skeleton they "
+        "transcribe (syncMeta's if-conditions and pSync arguments, its channel/output calls, SendPSync's offset statements; sendPsync's "
+        "size loop and its guards, getOutputStartPoint's retry arguments and ErrBreak, Run's loop statements, runLoopBackoff's returns: "
+        "c06_attempt_loop; the comparator of DelCheckpoint's deletion order: c06_delcheckpoint_order) is "
         "re-extracted each run and compared with the expectation in checks/p/C06.py",
+        "attempt ops: late failures (reader creation, ResetStartPoint in sendOutput) are injected AFTER the writer stored everything the "
+        "source sent, so the cache a failed attempt leaves is a function of the case; an attempt cut while the writer is still ingesting "
+        "leaves a cache that is any consistent cache (Loop.cache in the model, C05's subject in the code). A stored position with a "
+        "negative offset prints as ?:-1 on both sides of the `att` comparison (after ResetStartPoint the target holds nothing, or "
+        "(new id,-1) once SetRunId re-keyed: the model's afterMeta says (id,-1), the code leaves nothing when the run id did not change; "
+        "both mean 'no position'). The request-level cut schedules rebuild the target from a request prefix of ONE un-cut run "
+        "(requests of syncMeta's bookkeeping are sequential and deterministic given the same answers; DelCheckpoint's order is now "
+        "sorted) and restart with the cache lost (memory channel, or another instance taking over); a disk cache surviving the cut with "
+        "a half-created writer is C05/C08's subject",
+        "afterSend_by_sender / send_position_is_truth quantify over every decoded stream `raws` above the reader's start; that `raws` IS "
+        "the decoding of the bytes C06's reader delivers (offsets = bytes consumed) is C12's theorem, not re-proved here; "
+        "bisync_outcome_continue_or_full keeps the hypothesis that a position still labelled with the source's previous id meets a cache "
+        "holding nothing under the current id yet (an invariant of the non-bisync loop, loop_inv; for bisync the re-keying of the "
+        "recovery state is C14/C17's model)",
         "a run that ends before anything is delivered is repeated from scratch by the harness and counted by cause: "
         "aborted_attempt_store_rdbreader_rename_race = store.NewRdbReader (rdb_reader.go:39) sees neither x.rdb nor x.rdb.tmp while "
         "the snapshot writer renames (an offset reported valid is unreadable for a moment: C05's subject, reported there; ~1/500 disk "
@@ -223,18 +352,53 @@ PROP = {
         "RedisOutput (what StartPoint answers after a completed / an interrupted full resynchronisation with stale recovery state)",
     ],
     "partial": [
-        "the retry loop and the collector are modelled and proved (Props/C06Loop.lean: Loop, loop_inv, loop_safe, loop_next_outcomes, "
-        "loop_safe_stale); what remains outside the Lean model: an attempt whose INFO and PSYNC are answered by different sources is "
-        "modelled for ONE failover in between (the answering source's previous id is the id INFO reported; `staleAttempt`, defined "
-        "through the view `mix` whose admission is proved equal to the answering source's, mix_admits) and, for any other answering "
-        "source under a new id, for the FULLRESYNC outcome (`fullBy`) - a source two failovers away that would still grant CONTINUE "
-        "under an id INFO reported cannot exist in Redis (replid2 holds one id) and is not modelled; the loop's back-off and ErrBreak "
-        "(timing, termination) are not modelled; the stale attempt and the stages of a failed attempt have no correspondence ops of "
-        "their own (the fault-injection schedules and seed m1 exercise them, judged by the monitors only); several run-id directories "
-        "in one disk store, diskless replies ($EOF:, $0), int64 wrap of offset+1, an error of channel.StartPoint (ignored by the "
-        "code), faults in output.StartPoint (3 x 2 s retries); bisync mode beyond the bookkeeping probe (no bisync stream is replayed here)",
-        "the truth of the target after a Send is set by the model (`afterSend`: .at id1 e) = the sender applies exactly the commands up "
-        "to the offset it stores (C01/C07); tied here by the real-send window schedules on the target's request log",
+        "the retry loop, the collector, the attempts call by call and the loop machine are modelled and proved (Props/C06Loop.lean, "
+        "Props/C06Att.lean: run_in_loop, run_safe, failing_call_inv, attemptP_*, sendPSync64_eq, locErr_clears, del_prefix_safe) and "
+        "compared with the real run()/Run() (session C06c). What remains outside the Lean model: an attempt whose INFO and PSYNC are "
+        "answered by different sources is modelled for ONE failover in between (`staleAttempt`, compared op by op now) and, for any "
+        "other answering source under a new id, for the FULLRESYNC outcome (`fullBy`); a source two failovers away that would still grant "
+        "CONTINUE under an id INFO reported cannot exist in Redis and is not modelled; the loop's TIMING is not modelled (the 2 s back-off "
+        "and the 3 x 2 s retries are events without duration; termination = `run_stopped_fixed` after ErrBreak / Stop only - a loop that "
+        "never meets ErrBreak runs for ever by design); the Stage of a failed attempt is compared for failures injected between calls and "
+        "after the writer finished - an attempt cut in the middle of the writer's ingestion is covered by the model's `Loop.cache` "
+        "over-approximation, not by a correspondence op; several run-id directories in one disk store; a channel.StartPoint error is "
+        "proved at the decision level (locErr_clears: cache dropped, branch 3/6) and compared for decision + cache afterwards, its "
+        "byte-level outcome theorem is the cleared-cache case of outcome_continue_or_full by analogy, not by a theorem about `runL`; "
+        "VerifyRunId's side effect (SetRunId before it fails) is not injected; diskless replies are refused before anything changes "
+        "(attemptP_unchanged, bad_header_records_nothing; `capa eof` is not advertised - extracted fact c06_capabilities - and the double "
+        "answers $EOF: to a replica that does: such a tool would never complete a full sync, reported as run-aborted); request-level crash "
+        "points are explored for the output's bookkeeping (cut schedules, monitor + `sync` correspondence of the restarted run) and "
+        "proved for the deletion order of ResetStartPoint -> DelCheckpoints only (del_prefix_safe: ONE ascending order over the records "
+        "of all labels and databases; a record that cannot be read aborts before anything is deleted - extracted, not cut); two labels "
+        "in the SAME database hash are read by fetchCheckpoint in HGETALL order, not by maximum - C17's model; UpdateCheckpoint's request "
+        "sequence is C17's model. The loop model follows the error lattice of syncer.go (run_leaves_iff: refused connection, three failed "
+        "StartPoint, ErrCorrupted after DelRunId, a fatal Send error); getOutputStartPoint tests the closure's err, so a Stop() during "
+        "the retries yields ErrBreak after 1-2 tries (spTries says three: harmless, the loop is being left anyway); hdrOk accepts sizes "
+        "above 2^63-1 that ParseInt refuses (never generated). run_in_loop / run_safe cover attempts against ONE source (each step is a "
+        "Loop.attempt); stale / fullBy attempts, source changes and the collector are constructors of `Loop`, not events of the machine. "
+        "Concurrency between syncMeta and the collector is not in the model (one attempt reads ONE cache description): the one place where "
+        "the code read the cache twice across the PSYNC round trip is gone (N9; branch4_writer_offset: for a well-formed cache the model's "
+        "second reading equals the first), a pass between StartPoint/IsValidOffset/GetRdb and the writer / reader creation otherwise ends "
+        "in a refused writer or reader (gcrace, monitor only). "
+        "Theorems that only RESTATE a definition (their content is the correspondence of that definition with the code): "
+        "attemptP_stop_iff, attemptP_unchanged, bad_header_records_nothing, attemptP_ok, run_sleep_unchanged, run_stopped_fixed, "
+        "run_break_stops, run_corrupted_stops, run_leaves_iff, syncMetaL_eq, attempt_delivered_stream, truth_unchanged_before_send; "
+        "send_position_is_truth / stored_is_boundary re-export C02 / C07. Props/C06Loop.lean (session 3: gc_keeps_*, *_log_is_written, "
+        "loop_*, attempt_inv, corrupted_inv, attempt_full_eq, mix_admits, stale_inv) has not been read by an independent reviewer in any "
+        "round; in it `Loop.attempt` keeps `e` free (the truth after a stream is `.at id1 e` for any e, also beyond what the source "
+        "sent): an over-approximation of the sender, bounded only by afterSend_coupled's `o`",
+        "the truth of the target after a Send: afterSend_coupled couples C06's bookkeeping with the sender's target through the position "
+        "(Coupled: the sender's unique largest record IS C06's stored offset, which C06 calls the truth) and proves the coupling is kept "
+        "by ONE resumed life (C02 life_step with UniqueMax - resume mode, any configuration / schedule / wire prefix), with the meaning of "
+        "`.at id1 o` (specification split at o, overshoot repeated) on the sender's side. NOT derived: the composition over many lives "
+        "AND connections (sender_lives_beside_attempt only puts C02 lives_lose_nothing - which starts from a target WITHOUT position - "
+        "beside the attempt; its C06 conjuncts hold for every o); in-memory mode (no record on the target); the label of the record; "
+        "that `raws` is the decoding of the delivered bytes (C12); a full instance of afterSend_coupled (only the coupling itself and "
+        "each side are instantiated). The token `Truth` stays abstract in Model/Psync.lean and a completed SNAPSHOT replay still sets "
+        "`.at id1 left` by definition (C03/C04/C20's subject), tied by the real-send window and cut schedules on the target's data",
+        "bisync: the start position is composed from C14's model (frontier modes and sync mode) and the real bisyncStartPoint answer is run "
+        "through the real syncMeta (4 ops); no bisync STREAM is replayed here (C13/C14), and the re-keying of bisync recovery state on a "
+        "run-id change is not part of `Loop`",
     ],
 }
 
@@ -256,7 +420,14 @@ MANIFEST = {
             "output's position bookkeeping) is tied to the code by differential correspondence of the real RedisInput.run against a "
             "RESP source double, by restart-in-window schedules with the real RedisOutput bookkeeping and the real RedisOutput.Send on "
             "the shared target double (hand-off judged on the target's request log), fault injection into the bookkeeping calls, an "
-            "independent end-to-end byte monitor and a re-extracted source skeleton. Three defects found and fixed (07a0622, 23cb23d, 58997e8).",
+            "independent end-to-end byte monitor and a re-extracted source skeleton. Session 4: every ATTEMPT of the loop call by call "
+            "(one failing call -> Stage, peers failing before the bookkeeping, unusual snapshot headers, int64 wrap, channel.StartPoint "
+            "error, ErrBreak / back-off / Stop as a loop machine that stays inside `Loop` for every event list: run_in_loop, run_safe), the "
+            "stale attempt and the stages compared op by op with the real run()/Run() on the real RedisOutput; the position after a Send "
+            "coupled with the sender's target for one resumed life (afterSend_coupled over C02 life_step; many lives only side by side); the "
+            "bisync start position composed from C14 (bisync_outcome_continue_or_full, bisync_sync_mode_outcome); request-level crash "
+            "points of the output's bookkeeping (cut schedules; del_prefix_safe). Nine defects found and fixed (07a0622, 23cb23d, 58997e8, "
+            "a3509d3, 620d33c, 32a41ef, 837e4af, 6d4dd34, 23dcc75).",
     "note": "trusted: Lean kernel (propext, Classical.choice, Quot.sound only), Redis PSYNC admission rule transcription, source double, "
             "target double; CacheOK/CacheWF are invariants of the loop (loop_inv; the collector step is C05's, bridged in "
             "Proofs/PsyncStore.lean) and checked by read-back; the label-based outcome_continue_or_full additionally needs StoredCompat, which is NOT an invariant "
